@@ -9,7 +9,7 @@ for d in seeded/*/; do
   n=$(basename $d); id=${n%-*}
   [ -f $d/patch.diff ] || continue
   res=$(tools/withpatch.sh /verif/$d/patch.diff $id 2>&1)
-  sig=$(echo "$res" | grep -m1 -o "signature=.*" | cut -c11-170)
+  sig=$(echo "$res" | grep -m1 "^VIOLATION" | grep -o "signature=.*" | cut -c11-170)
   if echo "$res" | grep -q "^VIOLATION"; then echo "| $n | yes | \`$sig\` |" >> $OUT; else echo "| $n | **no** | $(echo "$res" | tail -1 | cut -c1-120) |" >> $OUT; fi
 done
 echo >> $OUT; echo "Left the repository clean: $(git -C /repo status --short | wc -l) modified files." >> $OUT
